@@ -1,17 +1,20 @@
-(* SolverOracle (C04): the time loop with the linear solver as an oracle that returns a
-   candidate solution and a convergence flag, under scipy's documented contract
-   (info = 0 -> residual within the configured tolerance; nothing is promised otherwise).
-   The loop accepts a step only when info = 0 -- this is what the code does after the fix,
-   and what the harness confirms behaviourally by intercepting the solver. *)
+(* SolverOracle (C04): the time loop with the iterative linear solver as an oracle that returns
+   a candidate solution and a convergence flag, under scipy's documented contract
+   (info = 0 -> residual within the configured tolerance; nothing is promised otherwise), and a
+   direct solve used when the flag is non-zero.  The loop stores the iterate only when info = 0 --
+   this is what the code does after the fixes, and what the harness confirms behaviourally by
+   intercepting the solver and injecting failures. *)
 From Coq Require Import Reals List Lia Arith.
 From BBLib Require Import NumSig Tridiag Reservoir.
 Import ListNotations.
 Open Scope R_scope.
 
 Section Oracle.
-  Variable solve : list (R * R * R) -> list R -> list R * nat.
+  Variable solve : list (R * R * R) -> list R -> list R * nat.      (* bicgstab: (x, info) *)
+  Variable direct : list (R * R * R) -> list R -> list R.           (* spsolve *)
   Variable within_tol : list (R * R * R) -> list R -> list R -> Prop.
   Hypothesis contract : forall rows b x, solve rows b = (x, 0%nat) -> within_tol rows b x.
+  Hypothesis direct_contract : forall rows b, within_tol rows b (direct rows b).
   Variable alpha_s : R -> R.
   Variable m_i dx2 : R.
 
@@ -19,25 +22,24 @@ Section Oracle.
     let b0 := single_b0 NumR m_i m_f prev in
     (rows_of NumR (single_k NumR alpha_s mesh b0), single_rhs NumR alpha_s m_f mesh b0).
 
-  (* None = the simulation raises *)
-  Fixpoint run_o (times mf : list R) (prev : list R) : option (list (list R)) :=
+  Definition accept (rows : list (R * R * R)) (b : list R) : list R :=
+    match solve rows b with
+    | (x, O) => x
+    | (_, S _) => direct rows b
+    end.
+
+  Fixpoint run_o (times mf : list R) (prev : list R) : list (list R) :=
     match times, mf with
     | t0 :: ((t1 :: _) as tt), f0 :: ft =>
         let '(rows, b) := step_system f0 ((t1 - t0) / dx2) prev in
-        match solve rows b with
-        | (x, O) => match run_o tt ft x with Some rest => Some (x :: rest) | None => None end
-        | (_, S _) => None
-        end
-    | _, _ => Some []
+        let x := accept rows b in x :: run_o tt ft x
+    | _, _ => []
     end.
 
   Lemma run_o_cons t0 t1 tt f0 ft prev :
     run_o (t0 :: t1 :: tt) (f0 :: ft) prev =
     let '(rows, b) := step_system f0 ((t1 - t0) / dx2) prev in
-    match solve rows b with
-    | (x, O) => match run_o (t1 :: tt) ft x with Some rest => Some (x :: rest) | None => None end
-    | (_, S _) => None
-    end.
+    accept rows b :: run_o (t1 :: tt) ft (accept rows b).
   Proof. reflexivity. Qed.
 
   (* every stored level solves its step's system to the solver's tolerance *)
@@ -49,43 +51,23 @@ Section Oracle.
     | _, _, _ => True
     end.
 
-  Theorem accepted_steps_have_small_residual : forall times mf prev field,
-    run_o times mf prev = Some field -> steps_ok times mf prev field.
+  Lemma accept_ok rows b : within_tol rows b (accept rows b).
   Proof.
-    induction times as [|t0 tt IH]; intros mf prev field H; [exact I|].
+    unfold accept. destruct (solve rows b) as [x [|k]] eqn:E; [now apply contract|apply direct_contract].
+  Qed.
+
+  Theorem stored_steps_have_small_residual : forall times mf prev,
+    steps_ok times mf prev (run_o times mf prev).
+  Proof.
+    induction times as [|t0 tt IH]; intros mf prev; [exact I|].
     destruct tt as [|t1 tt']; [destruct mf; exact I|].
     destruct mf as [|f0 ft]; [exact I|].
-    revert H. rewrite run_o_cons.
-    destruct (step_system f0 ((t1 - t0) / dx2) prev) as [rows b] eqn:Es.
-    destruct (solve rows b) as [x [|k]] eqn:Ek; [|discriminate].
-    destruct (run_o (t1 :: tt') ft x) as [rest|] eqn:Er; [|discriminate].
-    intros H. inversion H; subst. cbn [steps_ok]. rewrite Es. split.
-    - now apply contract.
-    - now apply IH.
+    rewrite run_o_cons. destruct (step_system f0 ((t1 - t0) / dx2) prev) as [rows b] eqn:Es.
+    cbn [steps_ok]. rewrite Es. split; [apply accept_ok|apply IH].
   Qed.
 
-  (* a solve that reports non-convergence is never accepted into a result *)
-  Theorem nonconverged_never_accepted : forall t0 t1 tt f0 ft prev x k,
-    solve (fst (step_system f0 ((t1 - t0) / dx2) prev)) (snd (step_system f0 ((t1 - t0) / dx2) prev)) = (x, S k) ->
-    run_o (t0 :: t1 :: tt) (f0 :: ft) prev = None.
-  Proof.
-    intros. rewrite run_o_cons. destruct (step_system f0 ((t1 - t0) / dx2) prev) as [rows b]. simpl in H.
-    now rewrite H.
-  Qed.
-
-  (* ... wherever in the run it happens *)
-  Theorem nonconverged_anywhere : forall times mf prev field,
-    run_o times mf prev = Some field ->
-    forall i, (S i < length times)%nat -> (i < length mf)%nat -> (i < length field)%nat.
-  Proof.
-    induction times as [|t0 tt IH]; intros mf prev field H i Hi Hm; [simpl in Hi; lia|].
-    destruct tt as [|t1 tt']; [simpl in Hi; lia|].
-    destruct mf as [|f0 ft]; [simpl in Hm; lia|].
-    revert H. rewrite run_o_cons.
-    destruct (step_system f0 ((t1 - t0) / dx2) prev) as [rows b].
-    destruct (solve rows b) as [x [|k]]; [|discriminate].
-    destruct (run_o (t1 :: tt') ft x) as [rest|] eqn:Er; [|discriminate].
-    intros H. inversion H; subst. destruct i; [simpl; lia|].
-    simpl. apply -> Nat.succ_lt_mono. apply (IH ft x rest Er); simpl in *; lia.
-  Qed.
+  (* an iterate that the solver flags as not converged is never what gets stored *)
+  Theorem nonconverged_iterate_never_stored : forall rows b x k,
+    solve rows b = (x, S k) -> accept rows b = direct rows b.
+  Proof. intros rows b x k H. unfold accept. now rewrite H. Qed.
 End Oracle.
